@@ -1150,7 +1150,13 @@ func (n *CustomNode) Exec(ctx context.Context, prepResult any) (any, error) {
 // Post implements Node.Post by calling the custom postFunc if provided
 func (n *CustomNode) Post(ctx context.Context, shared *SharedStore, prepResult, execResult any) (Action, error) {
 	if n.postFunc != nil {
-		return n.postFunc(ctx, shared, NewResult(prepResult), NewResult(execResult))
+		execRes := NewResult(execResult)
+		if r, ok := execResult.(Result); ok && r.IsError() {
+			// Exec hands an error Result through as the exec value; pass it on as it is
+			// instead of wrapping it into a second, non-error Result.
+			execRes = r
+		}
+		return n.postFunc(ctx, shared, NewResult(prepResult), execRes)
 	}
 	return n.BaseNode.Post(ctx, shared, prepResult, execResult)
 }
